@@ -203,7 +203,8 @@ def eval_shard(path):
 
 def correspondence(outdir):
     """Evaluate every shard; returns (verdict string over all cases in order, errors)."""
-    shards = sorted(glob.glob(os.path.join(outdir, "cases_*.v")))
+    # numeric order (more than 999 shards get four digits)
+    shards = sorted(glob.glob(os.path.join(outdir, "cases_*.v")), key=lambda p: int(re.search(r"cases_(\d+)\.v$", p).group(1)))
     stats = json.load(open(os.path.join(outdir, "stats.json")))
     size = stats["shard_size"]
     results = {}
